@@ -264,21 +264,54 @@ Proof.
   - apply Hres. exact Hr.
 Qed.
 
+(** residue sweep with incrementally computed power tables (computing every
+    a^r from scratch costs minutes inside Coq for den = 1000) *)
+Fixpoint pows (a : Z) (n : nat) (cur : Z) : list Z :=
+  match n with O => [] | S m => cur :: pows a m (cur * a) end.
+
+Lemma pows_nth a : forall n cur k, (k < n)%nat -> nth k (pows a n cur) 0 = cur * a ^ Z.of_nat k.
+Proof.
+  induction n as [|n IH]; intros cur k Hk; [lia|].
+  cbn [pows]. destruct k as [|k].
+  - cbn [nth]. change (Z.of_nat 0) with 0. rewrite Z.pow_0_r. ring.
+  - cbn [nth]. rewrite IH by lia. rewrite Nat2Z.inj_succ, Z.pow_succ_r by lia. ring.
+Qed.
+
+Definition residues_ok (a b num den add : Z) : bool :=
+  let PA := pows a (Z.to_nat den) 1 in
+  let PB := pows b (Z.to_nat (num + add + 1)) 1 in
+  forallb (fun r => let e := r * num / den + add in
+                    (e <? num + add + 1)
+                    && (nth (Z.to_nat r) PA 0 <=? nth (Z.to_nat e) PB 0))
+          (zrange 0 (Z.to_nat den)).
+
+Lemma residues_ok_sound a b num den add :
+  0 < den -> 0 <= num -> 0 <= add -> residues_ok a b num den add = true ->
+  forall r, 0 <= r < den -> a ^ r <= b ^ (r * num / den + add).
+Proof.
+  intros Hden Hnum Hadd H r Hr. unfold residues_ok in H. cbv zeta in H.
+  rewrite forallb_forall in H.
+  assert (Hin : In r (zrange 0 (Z.to_nat den))) by (apply in_zrange; lia).
+  specialize (H r Hin). apply andb_true_iff in H. destruct H as [H1 H2].
+  apply Z.ltb_lt in H1. apply Z.leb_le in H2.
+  assert (He : 0 <= r * num / den) by (apply Z.div_pos; [apply Z.mul_nonneg_nonneg; lia|lia]).
+  rewrite !pows_nth in H2 by lia.
+  rewrite !Z2Nat.id in H2 by lia. lia.
+Qed.
+
 (** the two period facts and the residue sweeps, on the GENERATED constants *)
 Lemma b58_enc_period : b58_enc_mul ^ b58_enc_size_den <= b58_enc_base ^ b58_enc_size_num.
 Proof. vm_compute. discriminate. Qed.
 
 Lemma b58_enc_residues_all :
-  forallb (fun r => b58_enc_mul ^ r <=? b58_enc_base ^ (r * b58_enc_size_num / b58_enc_size_den + b58_enc_size_add))
-          (zrange 0 (Z.to_nat b58_enc_size_den)) = true.
+  residues_ok b58_enc_mul b58_enc_base b58_enc_size_num b58_enc_size_den b58_enc_size_add = true.
 Proof. vm_compute. reflexivity. Qed.
 
 Lemma b58_dec_period : b58_dec_mul ^ b58_dec_size_den <= b58_dec_base ^ b58_dec_size_num.
 Proof. vm_compute. discriminate. Qed.
 
 Lemma b58_dec_residues_all :
-  forallb (fun r => b58_dec_mul ^ r <=? b58_dec_base ^ (r * b58_dec_size_num / b58_dec_size_den + b58_dec_size_add))
-          (zrange 0 (Z.to_nat b58_dec_size_den)) = true.
+  residues_ok b58_dec_mul b58_dec_base b58_dec_size_num b58_dec_size_den b58_dec_size_add = true.
 Proof. vm_compute. reflexivity. Qed.
 
 (** ENCODER BUFFER: 256^n <= 58^(n*138/100+1) for all n *)
@@ -290,11 +323,13 @@ Proof.
   { apply Z.div_pos; [|reflexivity]. apply Z.mul_nonneg_nonneg; [lia|discriminate]. }
   rewrite Z2Nat.id by (change b58_enc_size_add with 1; lia).
   change b58_enc_size_add with 1.
-  apply size_bound_generic; try (vm_compute; congruence); try lia.
-  - exact b58_enc_period.
-  - intros r Hr. pose proof b58_enc_residues_all as A. rewrite forallb_forall in A.
-    apply Z.leb_le. apply (A r). apply in_zrange.
-    rewrite Z2Nat.id by (vm_compute; discriminate). lia.
+  apply size_bound_generic;
+    [vm_compute; discriminate|vm_compute; discriminate|reflexivity|vm_compute; discriminate
+    |exact b58_enc_period| |lia].
+  intros r Hr.
+  apply (residues_ok_sound b58_enc_mul b58_enc_base b58_enc_size_num b58_enc_size_den b58_enc_size_add);
+    [reflexivity|vm_compute; discriminate|vm_compute; discriminate
+    |exact b58_enc_residues_all|exact Hr].
 Qed.
 
 (** DECODER BUFFER: 58^n <= 256^(n*733/1000+1) for all n *)
@@ -306,9 +341,11 @@ Proof.
   { apply Z.div_pos; [|reflexivity]. apply Z.mul_nonneg_nonneg; [lia|discriminate]. }
   rewrite Z2Nat.id by (change b58_dec_size_add with 1; lia).
   change b58_dec_size_add with 1.
-  apply size_bound_generic; try (vm_compute; congruence); try lia.
-  - exact b58_dec_period.
-  - intros r Hr. pose proof b58_dec_residues_all as A. rewrite forallb_forall in A.
-    apply Z.leb_le. apply (A r). apply in_zrange.
-    rewrite Z2Nat.id by (vm_compute; discriminate). lia.
+  apply size_bound_generic;
+    [vm_compute; discriminate|vm_compute; discriminate|reflexivity|vm_compute; discriminate
+    |exact b58_dec_period| |lia].
+  intros r Hr.
+  apply (residues_ok_sound b58_dec_mul b58_dec_base b58_dec_size_num b58_dec_size_den b58_dec_size_add);
+    [reflexivity|vm_compute; discriminate|vm_compute; discriminate
+    |exact b58_dec_residues_all|exact Hr].
 Qed.
